@@ -10,6 +10,7 @@ Ops (after the property id):
   grid <site> <Fs> <N>                 generated grid of the site, as exact rationals
   band <site> <Fs> <N> <lb> <ub|none>  `freqs[lb_idx:ub_idx]` with `get_bounds(freqs, lb, ub)`
   bounds <site> <Fs> <N> <lb> <ub|none>  `lb_idx ub_idx`
+  ret cache_fft <Fs> <N> <lb> <ub|none>  the vector `cache_fft` returns (all bins or the band, as the source says)
   keep <site> <Fs> <N> <lb> <ub|none>  indices of the bins `filtered_fourier` keeps (DC excluded)
   true1 / true2 / trueshift / truefreqz <Fs> <N>   the grids the property asks for
   sites                                names of all generated sites
@@ -48,6 +49,15 @@ def handle (args : List String) : String :=
     match lookup site, parseQ? fs, n.toNat?, parseQ? lb, parseUb? ub with
     | some g, some q, some k, some l, some u => showRatList (sliceBand (eval g piApprox q k) l u)
     | none, _, _, _, _ => "no-such-site"
+    | _, _, _, _, _ => "bad-args"
+  | ["ret", "cache_fft", fs, n, lb, ub] =>
+    -- the frequency vector `cache_fft` returns next to a cache limited to `[lb, ub]`
+    match lookup "cache_fft", parseQ? fs, n.toNat?, parseQ? lb, parseUb? ub with
+    | some g, some q, some k, some l, some u =>
+      match Nitime.Generated.Grids.cache_fft_sliced with
+      | some true => showRatList (sliceBand (eval g piApprox q k) l u)
+      | some false => showRatList (eval g piApprox q k)
+      | none => "unsupported"
     | _, _, _, _, _ => "bad-args"
   | ["bounds", site, fs, n, lb, ub] =>
     match lookup site, parseQ? fs, n.toNat?, parseQ? lb, parseUb? ub with
